@@ -316,6 +316,14 @@ def reject_predicate(func):
             # not all(Q): used as `if not all(Q): return False` -> fails iff some not Q
             return tgt, it, ast.UnaryOp(op=ast.Not(), operand=n.operand.args[0].elt), n
     for n in func.walk():
+        # if any(P(x) for x in IT): return False
+        if isinstance(n, ast.If) and not n.orelse and isinstance(n.test, ast.Call) and call_name(n.test) == 'any' and \
+                any(isinstance(x, ast.Return) and const_val(x.value) is False for x in n.body):
+            q = quantifier(n.test)
+            if q is not None:
+                kind, it, tgt, pred = q
+                return tgt, it, pred, n
+    for n in func.walk():
         if isinstance(n, ast.Call) and call_name(n) == 'all' and isinstance(getattr(n, '_parent', None), (ast.Assign, ast.Return)):
             q = quantifier(n)
             if q is not None:
